@@ -2,41 +2,82 @@ package c07
 
 import "fmt"
 
-// corpus holds the minimal failing inputs of every defect found so far (one per root cause, see
-// NOTES.md). It is executed before any exploration, so the quick tier reaches every listed finding
+// corpus holds the minimal failing input of every listed finding (findings.d/C07.jsonl; grouped by root
+// cause in NOTES.md). It is executed before any exploration, so the quick tier reaches every listed finding
 // deterministically even when the BFS is cut by the deadline, and so that the example recorded for a
 // signature is the minimal one.
 var corpus = []struct {
 	sc   string
 	path []string
 }{
-	// sparse truncation deletes a non-configurable element sitting exactly at the new length
-	{"core-small", []string{`Object.defineProperty(a,0,{value:7})`, `a.length=0`}},
-	{"core-small", []string{`Object.defineProperty(a,0,{value:7})`, `Object.defineProperty(a,"length",{value:0})`}},
-	// objCount is not decremented by length truncation / fast pop, and is incremented by every redefinition
-	{"methods-small", []string{`a[0]=1`, `a.length=0`, `a[1]=1`, `a.includes(undefined)`}},
-	{"methods-small", []string{`a[1]=1`, `a.pop()`, `a.includes(undefined)`}},
-	{"methods-small", []string{`a[2]=1`, `Object.defineProperty(a,1,{value:7,writable:true,enumerable:true,configurable:true})`, `Object.defineProperty(a,1,{value:7,writable:true,enumerable:true,configurable:true})`, `a.includes(undefined)`}},
-	// a failing delete renders the whole array into its error message (runs getters; 2 GiB string on huge arrays)
-	{"core-small", []string{`Object.defineProperty(a,0,{get:G,set:S,configurable:false})`, `delete a[0]`}},
-	// comparator result -0 is treated as "less"
-	{"sort-inputs", []string{`a.push(1)`, `a.push(2)`, `a.sort(cmpNegZero)`}},
-	{"sort-inputs", []string{`a.push(1)`, `a.push(2)`, `a.toSorted(cmpNegZero)`}},
-	// splice fast path ignores extensibility, read-only length and inherited setters / read-only inherited elements
-	{"methods-small", []string{`Object.freeze(a)`, `a.splice(1,0,"x")`}},
-	{"methods-small", []string{`a.push(1,undefined)`, `Object.defineProperty(a,"length",{writable:false})`, `a.splice(1,0,"x")`}},
-	{"proto-indexed", []string{`Object.defineProperty(Array.prototype,0,{get:G,set:S,enumerable:true,configurable:true})===a`, `a.splice(1,0,"x")`}},
-	// length is converted (RangeError) before its writability is checked (TypeError)
-	{"core-small", []string{`Object.defineProperty(a,"length",{writable:false})`, `a.length=-1`}},
-	{"core-huge", []string{`a.length=4294967295`, `Object.defineProperty(a,"length",{writable:false})`, `a.push(1)`}},
-	// element descriptors (shared _defineOwnProperty)
+	// copyWithin|dense|calls
+	{"proto-indexed", []string{`Object.defineProperty(a,1,{get:G,set:S,enumerable:true,configurable:true})`, `Object.freeze(a)`, `a.copyWithin(1,0,2)`}},
+	// define-index[accessor-undefined on data-nonconfigurable]|dense|result(ok/reject)
 	{"core-small", []string{`Object.defineProperty(a,0,{value:7})`, `Object.defineProperty(a,0,{get:undefined})`}},
-	{"core-small", []string{`Object.defineProperty(a,0,{get:G,set:S,configurable:false})`, `Object.defineProperty(a,0,{writable:false})`}},
-	{"core-small", []string{`Object.defineProperty(a,0,{get:G,enumerable:true,configurable:true})`, `Object.defineProperty(a,0,{writable:false})`}},
+	// define-index[value on accessor]|dense|state:props:attrs(wec/-ec)
 	{"core-small", []string{`a[0]=1`, `Object.defineProperty(a,0,{get:G,enumerable:true,configurable:true})`, `Object.defineProperty(a,0,{value:7})`}},
-	{"core-small", []string{`a[0]=1`, `Object.defineProperty(a,0,{get:G,enumerable:true,configurable:true})`, `a[0]=1`}},
-	// isFrozen on a non-extensible array whose length was never read
+	// define-index[writable-only on accessor-nonconfigurable]|dense|result(ok/reject)
+	{"core-small", []string{`Object.defineProperty(a,0,{get:G,set:S,configurable:false})`, `Object.defineProperty(a,0,{writable:false})`}},
+	// define-index[writable-only on accessor]|dense|state:probes
+	{"core-small", []string{`Object.defineProperty(a,0,{get:G,enumerable:true,configurable:true})`, `Object.defineProperty(a,0,{writable:false})`}},
+	// define-length[non-configurable element above the new length]|sparse|result(ok/reject)
+	{"core-transition", []string{`Object.defineProperty(a,4097,{value:7})`, `Object.defineProperty(a,"length",{value:0})`}},
+	// define-length[non-configurable element at the new length]|sparse|result(ok/reject)
+	{"core-small", []string{`Object.defineProperty(a,0,{value:7})`, `Object.defineProperty(a,"length",{value:0})`}},
+	// delete-index|dense|calls
+	{"core-small", []string{`Object.defineProperty(a,0,{get:G,set:S,configurable:false})`, `delete a[0]`}},
+	// filter|sparse|result(ok/reject)
+	{"methods-small", []string{`Object.defineProperty(a,1,{value:8,writable:true,enumerable:true,configurable:false})`, `a.filter(cbTrunc)`}},
+	// find|sparse|result(ok/reject)
+	{"methods-small", []string{`Object.defineProperty(a,1,{value:8,writable:true,enumerable:true,configurable:false})`, `a.find(cbTrunc)`}},
+	// isFrozen|dense|result(value)
 	{"core-small", []string{`Object.preventExtensions(a)`, `Object.isFrozen(a)`}},
+	// pop|dense|calls
+	{"core-huge", []string{`Object.defineProperty(a,0,{get:G,set:S,configurable:false})`, `a.pop()`}},
+	// push|dense|result(RangeError/reject)
+	{"core-huge", []string{`a.length=4294967295`, `Object.defineProperty(a,"length",{writable:false})`, `a.push(1)`}},
+	// reduce|sparse|result(ok/reject)
+	{"methods-small", []string{`a[0]=1`, `Object.defineProperty(a,1,{value:8,writable:true,enumerable:true,configurable:false})`, `a.reduce(rdTrunc)`}},
+	// set-index|dense|result(ok/reject)
+	{"core-small", []string{`a[0]=1`, `Object.defineProperty(a,0,{get:G,enumerable:true,configurable:true})`, `a[0]=1`}},
+	// set-length[invalid length]|dense|result(RangeError/reject)
+	{"core-small", []string{`Object.defineProperty(a,"length",{writable:false})`, `a.length=-1`}},
+	// set-length[non-configurable element above the new length]|sparse|result(ok/reject)
+	{"core-transition", []string{`Object.defineProperty(a,4097,{value:7})`, `a.length=0`}},
+	// set-length[non-configurable element at the new length]|sparse|result(ok/reject)
+	{"core-small", []string{`Object.defineProperty(a,0,{value:7})`, `a.length=0`}},
+	// sort(cmpNegZero)|arraylike|calls
+	{"array-like", []string{`Object.defineProperty(a,1,{get:G,set:S,enumerable:true,configurable:true})`, `Array.prototype.push.call(a,1,undefined)`, `Array.prototype.sort.call(a,cmpNegZero)`}},
+	// sort(cmpNegZero)|arraylike|state:props:value
+	{"array-like", []string{`Array.prototype.splice.call(a,1,1,"x","y")`, `Array.prototype.sort.call(a,cmpNegZero)`}},
+	// sort(cmpNegZero)|dense|calls
+	{"proto-indexed", []string{`Array.prototype[0]=7`, `Object.defineProperty(a,1,{get:G,set:S,enumerable:true,configurable:true})`, `a.sort(cmpNegZero)`}},
+	// sort(cmpNegZero)|dense|state:props:value
+	{"sort-inputs", []string{`a.push(1)`, `a.push(2)`, `a.sort(cmpNegZero)`}},
+	// sort(cmpNegZero)|goslice-reflect|state:values
+	{"go-slice", []string{`a[1]=1`, `a.sort(cmpNegZero)`}},
+	// splice|dense|calls
+	{"proto-indexed", []string{`Object.defineProperty(Array.prototype,0,{get:G,set:S,enumerable:true,configurable:true})===a`, `a.splice(1,0,"x")`}},
+	// splice|dense|result(ok/reject)
+	{"proto-indexed", []string{`Object.defineProperty(Array.prototype,0,{value:8,writable:false,enumerable:true,configurable:true})===a`, `a.splice(1,0,"x")`}},
+	// splice|dense|state:props:extra-key
+	{"methods-small", []string{`Object.freeze(a)`, `a.splice(1,0,"x")`}},
+	// splice|dense|state:props:value
+	{"methods-small", []string{`a.push(1,undefined)`, `Object.defineProperty(a,"length",{writable:false})`, `a.splice(1,0,"x")`}},
+	// splice|sparse|calls
+	{"proto-indexed", []string{`Object.defineProperty(a,1,{get:G,set:S,enumerable:true,configurable:true})`, `Object.freeze(a)`, `a.splice(-1)`}},
+	// stale-objCount after define-index|dense|fast path misreads the array
+	{"methods-small", []string{`a[2]=1`, `Object.defineProperty(a,1,{value:7,writable:true,enumerable:true,configurable:true})`, `Object.defineProperty(a,1,{value:7,writable:true,enumerable:true,configurable:true})`, `a.includes(undefined)`}},
+	// stale-objCount after filter|dense|fast path misreads the array
+	{"methods-small", []string{`Object.defineProperty(a,1,{value:8,writable:false,enumerable:true,configurable:true})`, `a.filter(cbTrunc)`, `a.splice(0,1)`}},
+	// stale-objCount after pop|dense|fast path misreads the array
+	{"methods-small", []string{`a[1]=1`, `a.pop()`, `a.includes(undefined)`}},
+	// stale-objCount after set-length|dense|fast path misreads the array
+	{"methods-small", []string{`a[0]=1`, `a.length=0`, `a[1]=1`, `a.includes(undefined)`}},
+	// stale-propValueCount after define-index switching sparse->dense|dense|fast path misreads the array
+	{"prefilled-1024", []string{`Object.defineProperty(a,1023,{value:8,writable:false,enumerable:true,configurable:true})`, `a.length=1024`, `EXPORT(a)`}},
+	// toSorted(cmpNegZero)|dense|result(value)
+	{"sort-inputs", []string{`a.push(1)`, `a.push(2)`, `a.toSorted(cmpNegZero)`}},
 }
 
 func corpusCheck() error {
@@ -74,7 +115,7 @@ func regression(e *explorer, scs []*scenario) {
 			if !t.enabled {
 				continue
 			}
-			if fs := t.judge(sc, &sc.ops[oi]); len(fs) > 0 {
+			if fs := x.judge(sc, path, &sc.ops[oi], &t); len(fs) > 0 {
 				e.report(sc, path, &sc.ops[oi], oi, &t, fs)
 				any = true
 			}
